@@ -239,7 +239,8 @@ Definition _superseeded (superseeds: list Mapping) (lhs rhs: lit) : result bool 
         let lhs_pred := symbol_pred lsy in
         let rhs_pred := symbol_pred rsy in
         if pred_eqb lhs_pred rhs_pred
-        then Ok (same_pred_args (snd lsy) (snd rsy))          (* rhs.sign is not looked at *)
+        then (if sign_eqb (lit_sign rhs) Neg then Ok false      (* a negated literal is never implied (fix 1) *)
+              else Ok (same_pred_args (snd lsy) (snd rsy)))
         else
           (fix loop (ms: list Mapping) : result bool :=
              match ms with
